@@ -62,6 +62,27 @@ func driveYA(p *Plan, shard int, w *Writer, t *codec.Table) {
 				return drive.Res{St: "ok"}
 			})
 			rec["eq"] = eq
+			// patches: the diff from n to a perturbed n (computed on JSON-born values) applied to the YAML-born n
+			// and to the JSON-born n must deliver the same document
+			pys := []Rec{}
+			for pi, m := range fam[fi].P {
+				if m.IsVoid() || len(pys) >= 4 || !keep(p.Seed, 0.5, "yapatch", id, pi) {
+					continue
+				}
+				apply := func(born func() (jd.JsonNode, error)) codec.Node {
+					return leg(func() (jd.JsonNode, error) {
+						x, err := born()
+						if err != nil {
+							return nil, err
+						}
+						return x.Patch(v.MustInject(n).Diff(v.MustInject(m)))
+					})
+				}
+				gy := apply(func() (jd.JsonNode, error) { return jd.ReadYamlString(v.MustInject(n).Yaml()) })
+				gj := apply(func() (jd.JsonNode, error) { return jd.ReadJsonString(v.MustInject(n).Json()) })
+				pys = append(pys, Rec{"m": m, "gy": gy, "gj": gj})
+			}
+			rec["pys"] = pys
 			// through the binaries: json2yaml | yaml2json, and -yaml diff followed by -yaml -p
 			if bin := p.Bins["v2"]; bin != "" && keep(p.Seed, 0.5, "yacli", id) {
 				dir := filepath.Join(tmp, fmt.Sprint(id))
